@@ -4,6 +4,7 @@ import (
 	"bytes"
 	"fmt"
 	"math/rand"
+	"runtime"
 	"sync"
 	"sync/atomic"
 
@@ -68,6 +69,8 @@ func init() {
 	runners["bp.stress"] = func(_ *state, a []string) string {
 		max, g, iters := atoi(a[0]), atoi(a[1]), atoi(a[2])
 		pool := mempool.NewBuffer(max)
+		// more threads than processors: holders are descheduled by the OS at arbitrary instructions
+		defer runtime.GOMAXPROCS(runtime.GOMAXPROCS(runtime.NumCPU() * 2))
 		var owner sync.Map // *bytes.Buffer -> *int32 (1 while held)
 		var bad atomic.Value
 		var wg sync.WaitGroup
@@ -90,7 +93,25 @@ func init() {
 						// only buffers that came back through Put can be over cap; fresh ones have cap 0
 						bad.Store(fmt.Sprintf("capped pool handed out cap=%d > %d", x.Cap(), max))
 					}
-					x.Write(make([]byte, r.Intn(3*64)))
+					// write an owner-tagged pattern, let others run, and read it back: a Reset (or a write) by a previous
+					// holder that still touches the buffer shows up as a wrong length or a foreign byte
+					n := 1 + r.Intn(3*64)
+					pat := make([]byte, n)
+					for j := range pat {
+						pat[j] = byte(seed)
+					}
+					x.Write(pat)
+					runtime.Gosched()
+					if x.Len() != n {
+						bad.Store(fmt.Sprintf("buffer changed under its holder: len=%d, written %d", x.Len(), n))
+					} else {
+						for _, c := range x.Bytes() {
+							if c != byte(seed) {
+								bad.Store("buffer holds another user's bytes")
+								break
+							}
+						}
+					}
 					atomic.StoreInt32(f, 0)
 					pool.Put(x)
 				}
@@ -103,6 +124,10 @@ func init() {
 		return "ok"
 	}
 	suites["bufpool"] = suite{gen: func(r *rand.Rand, n int, emit func(string)) {
+		// many more goroutines than processors, for long enough that a Get lands between the two statements of a Put
+		emit("bp.stress 0 128 8000")
+		emit("bp.stress 64 128 8000")
+		emit("bp.stress 300 96 8000")
 		for done := 0; done < n; {
 			emit("reset")
 			emit(fmt.Sprintf("bp.new %d", pick(r, []int{0, 0, 8, 64, 100})))
